@@ -4,9 +4,14 @@ open Monero
 /-! # C20 — the network / address-type tag table is Monero's and is a bijection
 
 The model is *entirely generated*: `Monero.asU8`, `fromU8`, `addrTypeOf` are lookups in `Gen.asU8`, `Gen.fromU8`,
-`Gen.addrType`, which the translator rewrites from src/network.rs and src/util/address.rs on every run. The finite
-facts are decided by kernel evaluation over the *whole* domain (3×3 pairs, all 256 byte values) and lifted to arbitrary
-blobs by ordinary lemmas. -/
+`Gen.addrType` (+ the flag `Gen.addrTypeEmptyIsError`). Since the translator's second reading (harness/src/observe.rs) these are
+the tables OBSERVED by evaluating the compiled functions of the current source exhaustively on their finite domains — the 9 pairs
+(and 6 payment ids), all 256 byte values, `from_slice` on every first byte × every length 1..=160 × 5 content patterns, and on the
+empty blob; the syntactic reading of the `match` arms is only compared with them. Trusted: the table SHAPE observe.rs imposes on
+`from_slice` (row selected by byte 0 alone, one length threshold, one contiguous payment-id range). The finite facts are decided
+by kernel evaluation over the *whole* domain (3×3 pairs, all 256 byte values) and lifted to arbitrary blobs by ordinary lemmas;
+the ∀-blob statements are therefore statements about the model — for the Rust code, independence of content and of lengths beyond
+160 is what the differential run samples (lengths up to 1000), not what is proved. -/
 namespace C20
 
 /-- forward table = Monero's -/
@@ -61,7 +66,10 @@ theorem C20_type_lookup (net : Net) (k : Kind) (b : UInt8) (rest : Bytes) (hb : 
   simp only [addrTypeOf, hb, this]
   cases k <;> simp
 
-theorem C20_type_lookup_empty (net : Net) : addrTypeOf net [] = none := rfl
+/-- the empty blob is rejected — through the observed flag (`addrTypeOf` consults `Gen.addrTypeEmptyIsError`) -/
+theorem C20_type_lookup_empty (net : Net) : addrTypeOf net [] = none := by
+  have h : Gen.addrTypeEmptyIsError = true := by decide
+  simp [addrTypeOf, h]
 
 /-- a tag of one network is rejected under another -/
 theorem C20_cross_network (n n' : Net) (k : Kind) (hne : n ≠ n') (b : UInt8) (rest : Bytes)
@@ -71,7 +79,7 @@ theorem C20_cross_network (n n' : Net) (k : Kind) (hne : n ≠ n') (b : UInt8) (
   simp only [hne, if_false] at this
   simp [addrTypeOf, hb, this]
 
-/-- the generated table really rejects the empty blob before indexing (otherwise `bytes[0]` would panic) -/
+/-- the flag observed on the compiled code: `from_slice(&[], n)` returned `Err` — no panic at `bytes[0]` — under all three networks -/
 theorem C20_empty_guard : Gen.addrTypeEmptyIsError = true := by decide
 
 /-! ## added after the audit: the three generated tables tied to each other and to one total by-the-book function -/
@@ -81,7 +89,7 @@ included) and under every network the model of `AddressType::from_slice` is the 
 (Spec/Tags.lean) — the function relation C executes for the `addrtype` operation. -/
 theorem C20_type_total (net : Net) (bytes : Bytes) : addrTypeOf net bytes = Spec.addrType net bytes := by
   cases bytes with
-  | nil => rfl
+  | nil => rw [C20_type_lookup_empty]; rfl
   | cons b rest =>
     have := arm_table net (Net.mem_all net) b.toNat (List.mem_range.2 b.toNat_lt)
     simp only [addrTypeOf, Spec.addrType, this]
@@ -93,16 +101,17 @@ theorem C20_type_total (net : Net) (bytes : Bytes) : addrTypeOf net bytes = Spec
       · subst hn; cases k <;> simp
       · simp [hn]
 
-/-- the forward table names nine distinct bytes (stated on the generated `asU8`, not on the reference table) and every
-one of them fits a byte: `UInt8.ofNat` in `Address::as_bytes` does not wrap and `getD 0` never takes its default -/
+/-- the forward table names nine distinct bytes (stated on the generated `asU8`, not on the reference table) -/
 theorem C20_asU8_injective (n n' : Net) (k k' : Kind) (t : Nat) (h : asU8 n k = some t) (h' : asU8 n' k' = some t) :
     n = n' ∧ k = k' := by
   rw [C20_table] at h h'
   exact C20_injective n n' k k' ((Option.some.inj h).trans (Option.some.inj h').symm)
 
-theorem C20_asU8_lt (n : Net) (k : Kind) :
-    ∃ t, asU8 n k = some t ∧ t < 256 ∧ (UInt8.ofNat t).toNat = t ∧ (asU8 n k).getD 0 = t := by
-  refine ⟨Spec.tag n k, C20_table n k, ?_, ?_, by rw [C20_table]; rfl⟩ <;> cases n <;> cases k <;> decide
+/-- the forward table is total, its value is the book's tag and fits a byte: in `Address::as_bytes` (Model/Address.lean)
+`(asU8 n k).getD 0` never takes its default and `UInt8.ofNat` does not wrap (restated from `C20_asU8_lt`) -/
+theorem C20_asU8_some_lt (n : Net) (k : Kind) : asU8 n k = some (Spec.tag n k) ∧ Spec.tag n k < 256 :=
+  ⟨C20_table n k, by cases n <;> cases k <;> decide⟩
+theorem C20_asU8_isSome (n : Net) (k : Kind) : (asU8 n k).isSome := by rw [(C20_asU8_some_lt n k).1]; rfl
 
 /-- byte → pair → byte: whatever the address-type lookup accepts under `net`, its first byte is a byte the network
 lookup maps to `net` AND the byte the forward table gives for `(net, k)`; the payment id has 8 bytes exactly for
@@ -141,10 +150,12 @@ theorem C20_decode_encode (net : Net) (k : Kind) (p : Bytes) (b : UInt8) (rest :
     · simp [hn] at h
 
 /-- pair → byte → pair, on the generated tables directly: the byte `as_u8` gives for `(n, k)` is mapped back to `n` by
-`from_u8` and to `k` (under `n`) by `from_slice`, whatever follows it (integrated: at least 72 more bytes) -/
+`from_u8` and to `k` (under `n`) by `from_slice`, whatever follows it (integrated: at least 72 more bytes); the payment id
+recovered is bytes 65..73 of the blob for an integrated address and nothing otherwise -/
 theorem C20_encode_decode (n : Net) (k : Kind) (b : UInt8) (rest : Bytes) (h : asU8 n k = some b.toNat)
     (hl : k = .Integrated → 72 ≤ rest.length) :
-    fromU8 b.toNat = some n ∧ ∃ p, addrTypeOf n (b :: rest) = some (k, p) := by
+    fromU8 b.toNat = some n ∧
+      addrTypeOf n (b :: rest) = some (k, if k = .Integrated then ((b :: rest).drop 65).take 8 else []) := by
   rw [C20_table] at h
   have hb : b.toNat = Spec.tag n k := (Option.some.inj h).symm
   refine ⟨by rw [hb]; exact C20_network_inverse n k, ?_⟩
@@ -152,8 +163,19 @@ theorem C20_encode_decode (n : Net) (k : Kind) (b : UInt8) (rest : Bytes) (h : a
   by_cases hk : k = .Integrated
   · have := hl hk
     simp only [hk, if_true, List.length_cons]
-    rw [if_neg (by omega)]; exact ⟨_, rfl⟩
-  · simp only [hk, if_false]; exact ⟨_, rfl⟩
+    rw [if_neg (by omega)]
+  · simp only [hk, if_false]
+
+/-- the whole round trip for an integrated address, payment id included: tag ‖ 64 bytes ‖ pid ‖ anything -/
+theorem C20_encode_decode_integrated (n : Net) (b : UInt8) (keys pid tail : Bytes) (h : asU8 n .Integrated = some b.toNat)
+    (hk : keys.length = 64) (hp : pid.length = 8) :
+    addrTypeOf n (b :: (keys ++ pid ++ tail)) = some (.Integrated, pid) := by
+  have := (C20_encode_decode n .Integrated b (keys ++ pid ++ tail) h (fun _ => by simp [hk, hp]; omega)).2
+  rw [this]
+  simp only [if_true]
+  have e : (b :: (keys ++ pid ++ tail)).drop 65 = pid ++ tail := by
+    rw [show (65 : Nat) = 64 + 1 from rfl, List.drop_succ_cons, List.append_assoc, List.drop_left' hk]
+  rw [e, List.take_left' hp]
 
 /-- the network lookup accepts a byte for `n` exactly when the forward table produces that byte for `n` and some type:
 the two tables regenerated from src/network.rs agree with each other (no reference table involved in the statement) -/
@@ -174,19 +196,86 @@ theorem C20_tables_agree (b : UInt8) (n : Net) : fromU8 b.toNat = some n ↔ ∃
     rw [C20_table] at h
     rw [← Option.some.inj h]; exact C20_network_inverse n k
 
-/-- every row of the regenerated `from_slice` table is well formed: the payment-id range `lo..hi` lies inside the
-minimum length the row demands (`lo ≤ hi ≤ minLen`, so `bytes[lo..hi]` cannot be out of range once the length test
-passed and `drop`/`take`/truncated subtraction in `addrTypeOf` hide nothing), it has 8 bytes exactly in the integrated
-rows and is empty in the others -/
+/-- format check of the generated `from_slice` table: in every row the payment-id range `lo..hi` lies inside the minimum
+length the row demands (`lo ≤ hi ≤ minLen`), has 8 bytes in the integrated rows and is empty in the others. (By itself this
+says little about the Rust: observe.rs writes `(lo, lo+8)` / `(0, 0)` by construction and fails the extraction if a payment id
+is not a slice inside the first accepted length. Its use is `C20_slice_exact` below.) -/
 theorem C20_rows_wf : ∀ e ∈ Gen.addrType,
     e.2.2.2.2.1 ≤ e.2.2.2.2.2 ∧ e.2.2.2.2.2 ≤ e.2.2.2.1 ∧
       e.2.2.2.2.2 - e.2.2.2.2.1 = (if e.2.2.1 = .Integrated then 8 else 0) := by decide
 
-/-- the empty blob, read together with the source: the regenerated flag says the code tests `is_empty()` before it
-indexes `bytes[0]` (so there is no panic), and the model and the by-the-book function both reject it under every network -/
-theorem C20_type_lookup_empty_guarded (net : Net) :
-    Gen.addrTypeEmptyIsError = true ∧ addrTypeOf net [] = none ∧ Spec.addrType net [] = none := ⟨by decide, rfl, rfl⟩
+private theorem arm_mem (net : Net) (b : Nat) (r : Kind × Nat × Nat × Nat) (h : addrArm net b = some r) :
+    (net, b, r) ∈ Gen.addrType := by
+  unfold addrArm at h
+  cases hf : Gen.addrType.find? (fun e => e.1 = net ∧ e.2.1 = b) with
+  | none => rw [hf] at h; exact absurd h (by simp)
+  | some e =>
+    rw [hf] at h
+    have hm := List.mem_of_find?_eq_some hf
+    have hp := List.find?_some hf
+    obtain ⟨e1, e2, e3⟩ := e
+    simp only [decide_eq_true_eq] at hp
+    obtain ⟨rfl, rfl⟩ := hp
+    simp only [Option.map_some, Option.some.injEq] at h
+    subst h
+    exact hm
 
+/-- what the row format buys, for ANY table row the lookup may hit: once the length test of the row passed, the slice
+`drop lo |>.take (hi - lo)` of `addrTypeOf` is exactly `hi - lo` bytes long — `take` is not cut short by the end of the blob
+and the truncated subtraction hides no `lo > hi` — and it has 8 bytes exactly for an integrated row -/
+theorem C20_slice_exact (net : Net) (b : UInt8) (rest : Bytes) (k : Kind) (minLen lo hi : Nat)
+    (harm : addrArm net b.toNat = some (k, minLen, lo, hi)) (hl : minLen ≤ (b :: rest).length) :
+    addrTypeOf net (b :: rest) = some (k, ((b :: rest).drop lo).take (hi - lo)) ∧
+      (((b :: rest).drop lo).take (hi - lo)).length = hi - lo ∧ lo ≤ hi ∧
+      hi - lo = (if k = .Integrated then 8 else 0) := by
+  have hw := C20_rows_wf _ (arm_mem net b.toNat _ harm)
+  simp only at hw
+  obtain ⟨h1, h2, h3⟩ := hw
+  refine ⟨?_, ?_, h1, h3⟩
+  · simp only [addrTypeOf, harm]
+    rw [if_neg (by omega)]
+  · rw [List.length_take, List.length_drop]; omega
+
+/-- the empty blob, read together with the observation: `addrTypeOf` returns what the observed flag dictates; the flag says
+"`from_slice(&[], n)` was `Err` under every network, and did not panic" (observe.rs evaluates the call under `catch_unwind`;
+it is the observed behaviour, not a reading of an `is_empty()` test in the source); hence the model rejects the empty blob,
+and so does the by-the-book function -/
+theorem C20_type_lookup_empty_guarded (net : Net) :
+    addrTypeOf net [] = (if Gen.addrTypeEmptyIsError then none else some (.Standard, [])) ∧
+    Gen.addrTypeEmptyIsError = true ∧ addrTypeOf net [] = none ∧ Spec.addrType net [] = none :=
+  ⟨rfl, C20_empty_guard, C20_type_lookup_empty net, rfl⟩
+
+/-! ## added after the second batch of seeded changes: first bytes with the high bit set, long blobs, table edges -/
+
+/-- every tag is below 64 -/
+theorem C20_tag_lt_64 (n : Net) (k : Kind) : Spec.tag n k < 64 := by cases n <;> cases k <;> decide
+
+/-- a first byte with the high bit set (in particular `0x80 ||| tag`, the first byte of a two-byte varint spelling of a tag) is
+rejected by the network lookup and, under every network and WHATEVER follows (`0x00` included), by the address-type lookup: the
+tag is one byte, not a varint -/
+theorem C20_reject_high_bit (b : UInt8) (hb : 128 ≤ b.toNat) (rest : Bytes) :
+    fromU8 b.toNat = none ∧ ∀ net, addrTypeOf net (b :: rest) = none :=
+  C20_reject_others b (fun n k h => by have := C20_tag_lt_64 n k; omega) rest
+
+/-- the six non-integrated tags accept a blob of ANY length ≥ 1 (73 bytes and more included), with no payment id -/
+theorem C20_nonintegrated_any_length (net : Net) (k : Kind) (hk : k ≠ .Integrated) (b : UInt8) (rest : Bytes)
+    (hb : b.toNat = Spec.tag net k) : addrTypeOf net (b :: rest) = some (k, []) := by
+  rw [C20_type_lookup net k b rest hb, if_neg hk]
+
+/-- the edges of the accepted range of the network lookup: the smallest tag 18 and the largest tag 63 are accepted, their outer
+neighbours 17 and 64 (and 0, 255) are not; and the three tags at the upper end of each network's run -/
+theorem C20_network_edges :
+    fromU8 17 = none ∧ fromU8 18 = some .Mainnet ∧ fromU8 63 = some .Testnet ∧ fromU8 64 = none ∧
+    fromU8 0 = none ∧ fromU8 255 = none ∧ fromU8 42 = some .Mainnet ∧ fromU8 36 = some .Stagenet ∧
+    fromU8 62 = none ∧ fromU8 43 = none ∧ fromU8 37 = none := by decide
+
+/-- the network lookup accepts exactly nine byte values -/
+theorem C20_network_accepts_nine : ((List.range 256).filter fun b => (fromU8 b).isSome).length = 9 := by decide +kernel
+
+example : (200 : UInt8).toNat ≥ 128 := by decide
+example : addrTypeOf .Mainnet ((0x92 : UInt8) :: 0 :: List.replicate 67 0) = none := (C20_reject_high_bit _ (by decide) _).2 _
+example : addrTypeOf .Mainnet (18 :: List.replicate 76 7) = some (.Standard, []) := by decide
+example : addrArm .Testnet (54 : UInt8).toNat = some (.Integrated, 73, 65, 73) := by decide
 example : asU8 .Testnet .SubAddress = some (63 : UInt8).toNat := by decide
 example : addrTypeOf .Stagenet (25 :: List.replicate 72 0) = some (.Integrated, List.replicate 8 0) := by decide
 
